@@ -31,6 +31,7 @@ sets = [
     ("C21", lambda: prolog.replay_atom_identity([])),
     ("C06order", lambda: prolog.replay_clause_order([])),
     ("C55", lambda: prolog.replay_hex_escapes([])),
+    ("C55canon", lambda: prolog.replay_canonical([])),
 ]
 only = sys.argv[1:]
 bad = 0
